@@ -894,14 +894,20 @@ func main() {
 			panic(p)
 		}
 	}()
+	tPhase := time.Now()
+	lap := func(name string) {
+		r.Set("seconds_"+name, int(time.Since(tPhase).Seconds()*10)/10.0)
+		tPhase = time.Now()
+	}
 	canonical(r)
 	directedWaiting(r)
 	raceFamily(r)
 	oneFieldFamily(r)
 	sameStepFamily(r)
+	lap("directed_families")
 	rand.Seed(seed)
 
-	worlds := r.Pick(450, 1400)
+	worlds := r.Pick(320, 1400)
 	events := r.Pick(560, 700)
 	ownN := r.Pick(8, 10)
 	modes := []string{modeJoint, modeJoint, modeJoint, modeDemote, modeLegacy}
@@ -934,11 +940,19 @@ func main() {
 		}
 		w.ownOnly(ownN)
 		w.randomLoop(events)
+		if rng.Intn(5) == 0 {
+			// shutdown order of pd-server: the contexts are cancelled first, calls still arrive, then Close (twice)
+			w.cancel()
+			r.Count("worlds_cancelled_before_close", 1)
+			w.randomLoop(40)
+			w.hb.Close()
+		}
 		w.settle()
 		r.Count("events_total", int64(w.evNo))
 		w.close()
 	}
 
+	lap("worlds")
 	// populated worlds: many regions, many operators running and waiting at once (notifier heap, waiting
 	// buckets at and beyond their per-description limit, records of many regions)
 	for li := 0; li < r.Pick(3, 8); li++ {
@@ -957,11 +971,14 @@ func main() {
 	}
 	flushFindings(r)
 
+	lap("populated_worlds")
 	pairPhase(r, rng)
 	flushFindings(r)
+	lap("dispatch_pairs")
 
 	stress(r, rng)
 	flushFindings(r)
+	lap("stress")
 
 	for k, v := range maxima {
 		r.Set(k, v)
